@@ -412,7 +412,7 @@ class Ctx(Report):
         return None
 
     def correspond(self, stream, harness, lines, oracle=None, nontrivial=None, compare=None,
-                   extra_flags=(), model_lines=None, want_model=True, ref_lines=None):
+                   extra_flags=(), model_lines=None, want_model=True, ref_lines=None, flags=None):
         """run `lines` through the real code (harness) and through the Lean model; compare line by line.
         oracle(line, impl_out, model_out) -> None | str   : property judged on the real output
         compare(line, impl_out, model_out) -> bool        : tie (default: string equality)
@@ -421,7 +421,7 @@ class Ctx(Report):
         self.cov["streams"][stream] = st
         if not lines:
             return st
-        ok, exe, out = build_harness(harness, extra_flags)
+        ok, exe, out = build_harness(harness, extra_flags, flags)
         if not ok:
             self.broken.append(("harness-build", harness, out[-3000:]))
             return st
